@@ -6,7 +6,7 @@ use crate::robdd;
 use crate::runner::{guarded, Ctx, Engine};
 use crate::space::Space;
 use crate::textsem::*;
-use rsbdd::bdd::BDD;
+use rsbdd::bdd::{BDDEnv, BDD};
 use serde_json::{json, Value};
 use std::rc::Rc;
 
@@ -395,9 +395,75 @@ fn pool_pairs(ctx: &mut Ctx) {
     }
 }
 
+/// lists of 17 and 18 distinct variables (beyond a machine-word nibble / any 16-entry table):
+/// every kind of bound at the interesting positions; judged on a family of assignments (the
+/// all-false, all-true, every single-one, every single-zero and every prefix assignment)
+fn very_long_lists(ctx: &mut Ctx) {
+    let mut idx = 1u64 << 42;
+    for len in [17usize, 18] {
+        for (kind, name) in [(0usize, "aln"), (1, "amn"), (2, "exn")] {
+            for n in [0i64, 1, 2, 8, len as i64 - 1, len as i64, len as i64 + 1] {
+                idx += 1;
+                if !ctx.mine(idx) {
+                    continue;
+                }
+                let case = json!({"part": "very-long", "len": len, "kind": kind, "n": n});
+                ctx.begin_case(|| case.clone());
+                ctx.count("evaluations", 1);
+                ctx.count("very_long_list_cases", 1);
+                let key = format!("{TAG} {name}([x0..x{}], {n})", len - 1);
+                let env = BDDEnv::<usize>::new();
+                let ops: Vec<Rc<BDD<usize>>> = (0..len).map(|i| env.var(2 * i + 1)).collect();
+                let r = crate::runner::guarded(|| match kind {
+                    0 => env.aln(&ops, n),
+                    1 => env.amn(&ops, n),
+                    _ => env.exn(&ops, n),
+                });
+                let d = match r {
+                    Ok(d) => d,
+                    Err(p) => {
+                        ctx.violation(key, format!("panicked: {p}"), case);
+                        continue;
+                    }
+                };
+                let mut assignments: Vec<Vec<bool>> = vec![vec![false; len], vec![true; len]];
+                for i in 0..len {
+                    let mut a = vec![false; len];
+                    a[i] = true;
+                    assignments.push(a.clone());
+                    assignments.push(a.iter().map(|x| !x).collect());
+                    assignments.push((0..len).map(|j| j <= i).collect());
+                    assignments.push((0..len).map(|j| j % 2 == 0 && j <= i).collect());
+                }
+                for a in assignments {
+                    let cnt = a.iter().filter(|x| **x).count() as i64;
+                    let want = match kind {
+                        0 => cnt >= n,
+                        1 => cnt <= n,
+                        _ => cnt == n,
+                    };
+                    let mut node = d.as_ref();
+                    let got = loop {
+                        match node {
+                            BDD::True => break true,
+                            BDD::False => break false,
+                            BDD::Choice(t, v, f) => node = if a[(*v - 1) / 2] { t.as_ref() } else { f.as_ref() },
+                        }
+                    };
+                    if got != want {
+                        ctx.violation(key, format!("with {cnt} of the {len} operands true the result is {got}, the definition gives {want}"), case);
+                        break;
+                    }
+                }
+            }
+        }
+    }
+}
+
 fn run(ctx: &mut Ctx) {
     let th = ctx.thorough();
     pool_pairs(ctx);
+    very_long_lists(ctx);
     api_sweep(ctx, 2, 4, if th { 3 } else { 2 }, 2);
     api_sweep(ctx, 3, 2, 1, 1);
     long_lists(ctx);
@@ -405,6 +471,16 @@ fn run(ctx: &mut Ctx) {
 }
 
 fn replay(ctx: &mut Ctx, c: &Value) {
+    if c["part"].as_str() == Some("very-long") {
+        let mut c2 = Ctx::new("C05", ctx.tier, ctx.seed, 0, 1);
+        very_long_lists(&mut c2);
+        for v in c2.violations {
+            if v.replay == *c {
+                ctx.violation(v.key, v.what, v.replay);
+            }
+        }
+        return;
+    }
     let u64s = |v: &Value| -> Vec<u64> { v.as_array().map(|a| a.iter().map(|x| x.as_u64().unwrap_or(0)).collect()).unwrap_or_default() };
     match c["part"].as_str() {
         Some("long") | Some("long-lists") => {
